@@ -4,7 +4,7 @@ import os
 
 from hypothesis import strategies as st
 
-from .. import refmodel as rm
+from .. import approute, refmodel as rm
 from .. import simnet, urlgen
 from ..fakesock import FakeSock
 from ..runner import Obs, exc_bucket, hyp_run
@@ -14,7 +14,7 @@ LEVEL = "exploration"
 RULE = (
     "case = (URL from components: scheme ws/wss, host name/IPv4/[IPv6], port absent/80/443/other, pchar path with "
     ";params and %-escapes, query; options host, origin, suppress_origin, subprotocols, cookie, header list/dict/dict with "
-    "None, connection; api connect/create_connection; via simulated network (fake TLS for wss) or the socket= option). "
+    "None, connection; api connect / create_connection / WebSocketApp (constructor + run_forever options); via simulated network (fake TLS for wss) or the socket= option). "
     "Two connections per case for key freshness. Non-trivial: any option set, or explicit port, or IPv6, or a query, or "
     ";params. Distinct = (url parts, options)."
 )
@@ -182,6 +182,10 @@ def one_connection(obs, case, rand16, tag):
                 if case["api"] == "connect":
                     ws = websocket.WebSocket()
                     ws.connect(url, **kw)
+                elif case["api"] == "app":
+                    if case.get("header_callable") and "header" in kw:
+                        kw["header"] = (lambda h=kw["header"]: h)  # WebSocketApp also takes a callable that returns the headers
+                    ws = approute.connect(websocket, url, kw)
                 else:
                     ws = websocket.create_connection(url, **kw)
             except Exception as e:
@@ -255,7 +259,10 @@ def cases(draw):
         o["connection"] = draw(st.sampled_from(["Upgrade", "keep-alive, Upgrade", "upgrade"]))
     if draw(st.integers(0, 4)) == 0:
         o["via"] = "socket"
-    return {"api": draw(st.sampled_from(["connect", "create_connection"])), "url": parts, "opts": o,
+    api = draw(st.sampled_from(["connect", "create_connection", "app"]))
+    if api == "app":
+        o.pop("connection", None)  # WebSocketApp has no such option
+    return {"api": api, "url": parts, "opts": o, "header_callable": api == "app" and draw(st.booleans()),
             "rand": [draw(st.binary(min_size=16, max_size=16)), draw(st.binary(min_size=16, max_size=16))]}
 
 
